@@ -228,8 +228,9 @@ def vfloat(x, tag):
 class Gen:
     """Type-directed random expression specs with sharing.  All randomness from `rng`."""
 
-    def __init__(self, rng, w_fold=1.0, malformed=False, maxdepth=7):
+    def __init__(self, rng, w_fold=1.0, malformed=False, maxdepth=7, mix_py=True):
         self.rng = rng
+        self.mix_py = mix_py
         self.w_fold = w_fold
         self.malformed = malformed
         self.maxdepth = maxdepth
@@ -241,7 +242,7 @@ class Gen:
     def sym(self, ty):
         r = self.rng
         names = self.syms.setdefault(ty, {})
-        n = r.choice(["x", "y", "z", "w"][: (2 if r.random() < 0.5 else 4)])
+        n = r.choice(["x", "y", "z", "w"][: (2 if r.random() < 0.25 else 4)])
         name = f"{n}{ty}"
         if name not in names:
             tstr = {"b": "boolean", "c64": "complex64", "c128": "complex128"}.get(ty) or TYPES[ty]
@@ -302,6 +303,13 @@ class Gen:
         return e
 
     def other_ty(self, ty):
+        """another float type for a mixed-precision operand.  The search does not mix Python-float typed
+        operands (no bit width: the package's type of `x32 * c_float` is float32, what a target computes is
+        target specific) with NumPy dtypes."""
+        if not self.mix_py:
+            if ty == "py":
+                return ty
+            return self.rng.choice([t for t in ("f16", "f32", "f64") if t != ty])
         return self.rng.choice([t for t in FTYPES if t != ty])
 
     def signed(self, d, ty):
@@ -335,7 +343,7 @@ class Gen:
         if got is not None:
             return got
         if d <= 0 or self.budget <= 0 or r.random() < 0.12:
-            return self.sym(ty) if r.random() < 0.6 else self.const(ty)
+            return self.sym(ty) if r.random() < 0.88 - 0.28 * self.w_fold else self.const(ty)
         c = r.random()
         if c < 0.34:
             k = r.choice(["add", "subtract", "multiply", "divide", "add", "multiply", "subtract"])
@@ -388,7 +396,7 @@ class Gen:
                 e = [k, x]
             else:
                 e = [r.choice(OPAQUE2), self.num(d - 1, ty), self.num(d - 1, ty)]
-        elif c < 0.94:
+        elif c < 0.88 + 0.06 * self.w_fold:
             # constant sub-computations (folding)
             k = r.choice(["add", "subtract", "multiply", "minimum", "maximum", "sqrt", "square", "negative", "absolute", "sign", "divide"])
             a, b = self.const(ty), self.const(ty)
@@ -431,7 +439,11 @@ class Gen:
             if r.random() < 0.5:
                 return self.sym("b")
             ty = r.choice(FTYPES)
-            return [r.choice(REL), self.sym(ty), self.sym(ty) if r.random() < 0.8 else self.const(ty)]
+            a = self.sym(ty)
+            b = self.sym(ty) if r.random() < 0.8 else self.const(ty, self.num_value(ty))
+            if b is a:
+                b = ["negative", a] if r.random() < 0.5 else ["add", a, self.const(ty, ["i", r.choice([1, 2, 3])])]
+            return [r.choice(REL), a, b]
         c = r.random()
         if c < 0.50:
             e = self.compare(d)
@@ -465,7 +477,7 @@ class Gen:
             e = ["logical_xor", self.boolean(d - 1), self.boolean(d - 1)]
         elif c < 0.93:
             e = ["select", self.boolean(d - 1), self.boolean(d - 1), self.boolean(d - 1)]
-        elif c < 0.95:
+        elif c < 0.93 + 0.015 * self.w_fold:
             e = self.bconst(r.random() < 0.5)
         else:
             e = self.sym("b")
@@ -504,6 +516,11 @@ class Gen:
             x, y = self.num(d - 1, ty), self.num(d - 1, self.other_ty(ty))
         else:
             x, y = self.num(d - 1, ty), self.num(d - 1, ty)
+            # keep accidental constant conditions rare: no `c1 rel c2`, no `x rel x` outside the directed branches
+            tries = 0
+            while (x is y or (x[0] == "const" and y[0] == "const") or x == y) and tries < 4:
+                tries += 1
+                y = self.num(max(1, d - 1), ty) if tries < 3 else ["add", self.sym(ty), self.num(1, ty)]
         return [k, x, y]
 
     # -- malformed stream
@@ -947,6 +964,8 @@ DIRECTED = [
     ("0.1(f32) + 0.2(f64)", lambda: ["add", ["const", vfloat(0.1, "py"), sym_spec("x", "f32")], ["const", vfloat(0.2, "py"), sym_spec("y", "f64")]]),
     ("x*(0.1(f32) + 0.2(f64))", lambda: ["multiply", sym_spec("y", "f64"), ["add", ["const", vfloat(0.1, "py"), sym_spec("x", "f32")], ["const", vfloat(0.2, "py"), sym_spec("y", "f64")]]]),
     ("largest(f32) == largest(f64)", lambda: ["eq", ["const", ["n", "largest"], sym_spec("x", "f32")], ["const", ["n", "largest"], sym_spec("y", "f64")]]),
+    ("atan2(0.0 - (x - x), -1)", lambda: ["atan2", ["subtract", ["const", vfloat(0.0, "py"), sym_spec("x", "f32")], ["subtract", sym_spec("x", "f32"), sym_spec("x", "f32")]],
+                                          ["const", ["i", -1], sym_spec("x", "f32")]]),
     ("-abs(a) < abs(b)", lambda: ["lt", ["negative", ["absolute", sym_spec("a", "f32")]], ["absolute", sym_spec("b", "f32")]]),
     ("abs(a) <= -abs(b)", lambda: ["le", ["absolute", sym_spec("a", "f64")], ["negative", ["absolute", sym_spec("b", "f64")]]]),
     ("select(-abs(a) == abs(b), a, b)", lambda: ["select", ["eq", ["negative", ["absolute", sym_spec("a", "f32")]], ["absolute", sym_spec("b", "f32")]], sym_spec("a", "f32"), sym_spec("b", "f32")]),
@@ -1006,16 +1025,18 @@ def run(ctx):
         correspondence(ctx, tline, [c[1] for c in corpus], ["corpus"] * len(corpus), "corpus", broken_out)
     n_total = ctx.scale(21000, 400000)
     batch = 3000
-    w_fold = 1.0
+    w_fold = 0.25
     done = 0
     n_bool = n_const = 0
     sampled = 0
     while done < n_total:
         g = Gen(ctx.rng, w_fold=w_fold)
+        gh = Gen(ctx.rng, w_fold=1.0)       # fold-heavy stream (constants, operands of known sign)
         gm = Gen(ctx.rng, malformed=True)
         specs, kinds = [], []
         for _ in range(min(batch, n_total - done)):
-            s, k = (gm if ctx.rng.random() < 0.07 else g).expression()
+            u = ctx.rng.random()
+            s, k = (gm if u < 0.07 else gh if u < 0.12 else g).expression()
             specs.append(s)
             kinds.append(k)
         status, res, _ = correspondence(ctx, tline, specs, kinds, "gen", broken_out)
@@ -1031,8 +1052,10 @@ def run(ctx):
                 ctx.sample(dict(stream=k, dag=r["dag"], rewritten=str(r.get("ok"))[:300]))
         done += len(specs)
         frac = n_const / max(1, n_bool)
-        if frac > 0.08:
-            w_fold = max(0.1, w_fold * 0.6)     # re-weight: fewer conditions with operands of known sign
+        if frac > 0.085:
+            w_fold = max(0.05, w_fold * 0.6)     # re-weight: fewer conditions with operands of known sign / constant leaves
+        elif frac < 0.06:
+            w_fold = min(1.0, w_fold * 1.25)
         if time.time() - t0 > ctx.scale(150, 1500):
             ctx.notes["correspondence_cut_short_after"] = done
             break
@@ -1094,7 +1117,7 @@ def run(ctx):
                    nmis == 0 and not any(b[0]["name"].startswith("model:") for b in broken_out), kind="correspondence")
 
     # ---- search: the property's clauses on the real rewriter, independent of the model
-    gs = Gen(ctx.rng)
+    gs = Gen(ctx.rng, mix_py=False)
     sspecs = []
     n_search = ctx.scale(4500, 60000)
     while len(sspecs) < n_search:
